@@ -215,6 +215,9 @@ def run(ctx):
             for o in ops:
                 if o["k"] in ("copy", "move") and any(e.get("name") == "repeating_trigger" for e in o["place"]["p"]):
                     readers.append(p)
+    # a read that only decides whether the field itself is overwritten (`if s.repeating_trigger == Some(k) {
+    # s.repeating_trigger = None }`) tells nobody anything: the field stays write-only as far as behaviour goes
+    readers = [p for p in readers if not _only_self_guarding_reads(ctx, p, "repeating_trigger")]
     ck.ob("C06-R3", "-", "repeating_trigger-is-never-read", not readers, detail=str(sorted(set(readers))))
     # positive control: absorbing_trigger IS read somewhere (the query works)
     pos = []
@@ -292,3 +295,47 @@ def _reads_field(rv, name):
     if k == "agg":
         return any(op_has(o) for o in rv["ops"])
     return False
+
+
+def _only_self_guarding_reads(ctx, path, field):
+    """every mention of `.field` in the function is the target of an assignment, or stands in the condition of an
+    else-less `if` whose block does nothing but assign to `.field` (constants only)"""
+    from .. import hirq
+    h = ctx.F.hir.get(path)
+    if h is None:
+        return False
+
+    def is_field(e):
+        e = hirq.strip_ref(e)
+        return isinstance(e, dict) and e.get("k") == "Field" and e.get("name") == field
+
+    def mentions(n):
+        return [x for x in hirq.walk(n) if x.get("k") == "Field" and x.get("name") == field]
+
+    def pure_store_block(blk):
+        while blk.get("k") == "Block" and "b" in blk:
+            b = blk["b"]
+            items = [s.get("e") or s for s in b["stmts"]] + ([b["expr"]] if b.get("expr") is not None else [])
+            if len(items) == 1 and items[0].get("k") == "Block":
+                blk = items[0]
+                continue
+            if not items:
+                return False
+            for it in items:
+                if not (it.get("k") == "Assign" and is_field(it["lhs"])):
+                    return False
+                if any(x.get("k") in ("MethodCall",) for x in hirq.walk(it["rhs"])) or mentions(it["rhs"]):
+                    return False
+                for c in hirq.walk(it["rhs"]):
+                    if c.get("k") == "Call" and not (hirq.callee_of(c) or "").endswith(("Some", "None")):
+                        return False
+            return True
+        return False
+    total = len(mentions(h["body"]))
+    accounted = 0
+    for n in hirq.walk(h["body"]):
+        if n.get("k") == "Assign" and is_field(n["lhs"]):
+            accounted += 1
+        if n.get("k") == "If" and n.get("else") is None and mentions(n["cond"]) and pure_store_block(n["then"]):
+            accounted += len(mentions(n["cond"]))
+    return total > 0 and accounted == total
